@@ -188,6 +188,14 @@ pub struct Multi {
     pub vfields: Vec<String>,                       // vector fields of the hasher
     pub wrap_traits: HashMap<(String, String), String>, // (Trait, method) -> qualified name
     pub wrap_mut: std::collections::HashSet<String>,  // qualified names of wrapper methods taking &mut self
+    pub foreign: Option<Foreign>,
+}
+
+/// another translated type whose methods a SIMD file calls on a temporary / freshly constructed object (PortableHash)
+pub struct Foreign {
+    pub ty: String,
+    pub arrays: Vec<(String, usize)>,            // array fields: name, length (u64 elements)
+    pub sub: (String, Vec<(String, usize)>),     // the sub-object field and its fields (length 0: a usize)
 }
 
 /// a field of the hasher that is itself a struct with translated methods (self.buffer : HashPacket)
@@ -305,6 +313,12 @@ impl<'a> Cx<'a> {
                         let n = m.to_string();
                         if let Some((i, _)) = self.fields.get(&n) {
                             return Some((format!("self.{}", n), *i));
+                        }
+                    } else if b.path.segments.len() == 1 {
+                        // <object variable>.<array field>
+                        let n = format!("{}.{}", b.path.segments[0].ident, m);
+                        if let Some(Ty::Arr(i)) = self.vars.get(&n) {
+                            return Some((n, *i));
                         }
                     }
                 }
@@ -764,6 +778,20 @@ impl<'a> Cx<'a> {
                     }
                 }
                 None
+            }
+            syn::Expr::MethodCall(m) if self.multi.is_some() && self.is_vec(&m.receiver) => {
+                let qn = self.qual(Owner::Wrap, &m.method.to_string());
+                let mut args: Vec<&syn::Expr> = vec![&*m.receiver];
+                args.extend(m.args.iter());
+                match self.call(&qn, &args) {
+                    Some((txt, Ty::Arr(i))) => {
+                        let t = self.fresh("a");
+                        self.pre.push(format!("SCall (Some {}) {}", q(&t), txt));
+                        self.vars.insert(t.clone(), Ty::Arr(i));
+                        Some((t, i))
+                    }
+                    _ => None,
+                }
             }
             syn::Expr::MethodCall(m) => match self.sub_call(m) {
                 Some((txt, Ty::Arr(i))) => {
@@ -1314,7 +1342,81 @@ impl<'a> Cx<'a> {
         None
     }
 
+    /// `<object variable>.<sub-object field>` of a foreign object: (variable, fields of the sub-object)
+    fn obj_sub_of(&self, e: &syn::Expr) -> Option<(String, Vec<(String, usize)>)> {
+        let fo = self.multi?.foreign.as_ref()?;
+        if let syn::Expr::Field(f) = e {
+            if let (syn::Expr::Path(b), syn::Member::Named(m)) = (&*f.base, &f.member) {
+                if b.path.segments.len() == 1 && *m == fo.sub.0 {
+                    let x = b.path.segments[0].ident.to_string();
+                    if fo.sub.1.iter().all(|(sf, _)| self.vars.contains_key(&format!("{}.{}.{}", x, fo.sub.0, sf))) {
+                        return Some((x, fo.sub.1.clone()));
+                    }
+                }
+            }
+        }
+        None
+    }
+
+    /// `<ForeignType> { field: x, .., sub: self.sub }.m(args)` returning an array: the method runs on a temporary object
+    fn foreign_literal_call(&mut self, e: &syn::Expr, out: &mut Vec<String>) -> Option<String> {
+        let m = self.multi?;
+        let fo = m.foreign.as_ref()?;
+        let mc = match e {
+            syn::Expr::MethodCall(mc) => mc,
+            _ => return None,
+        };
+        let st = match &*mc.receiver {
+            syn::Expr::Struct(st) if toks(&st.path) == fo.ty && st.rest.is_none() => st,
+            _ => return None,
+        };
+        let qn = format!("{}::{}", fo.ty, mc.method);
+        let sig = self.sigs.get(&qn)?.clone();
+        if !mc.args.is_empty() || !sig.params.is_empty() {
+            return None;
+        }
+        let mut fmap = Vec::new();
+        let mut seen = 0;
+        for f in &st.fields {
+            let name = match &f.member {
+                syn::Member::Named(n) => n.to_string(),
+                _ => return None,
+            };
+            if fo.arrays.iter().any(|(a, _)| *a == name) {
+                let (src, _) = self.array_name(&f.expr)?;
+                fmap.push(format!("({}, {})", q(&format!("self.{}", name)), q(&src)));
+                seen += 1;
+            } else if name == fo.sub.0 && toks(&f.expr) == format!("self . {}", fo.sub.0) {
+                for (sf, _) in &fo.sub.1 {
+                    let n = format!("self.{}.{}", fo.sub.0, sf);
+                    fmap.push(format!("({}, {})", q(&n), q(&n)));
+                }
+                seen += 1;
+            } else {
+                return None;
+            }
+        }
+        if seen != fo.arrays.len() + 1 {
+            return None;
+        }
+        let tmp = self.fresh("r");
+        match sig.ret {
+            Ty::Arr(i) => {
+                self.vars.insert(tmp.clone(), Ty::Arr(i));
+            }
+            _ => return None,
+        }
+        out.append(&mut self.pre);
+        out.push(format!("SCallWith (Some {}) {} [] [{}]", q(&tmp), q(&qn), fmap.join("; ")));
+        Some(format!("RVarArr {}", q(&tmp)))
+    }
+
     fn ret(&mut self, e: &syn::Expr, out: &mut Vec<String>) -> String {
+        if self.multi.is_some() {
+            if let Some(r) = self.foreign_literal_call(e, out) {
+                return r;
+            }
+        }
         if self.multi.is_some() {
             if self.is_vec(e) {
                 let v = self.vx(e);
@@ -1363,6 +1465,16 @@ impl<'a> Cx<'a> {
                                 Some((n, _)) => out.push(format!("SCopyArr {} {}", q(&format!("self.{}", name)), q(&n))),
                                 None => out.push(format!("SUnsupported {}", q(&toks(f)))),
                             },
+                        }
+                    } else if name == "buffer" && self.obj_sub_of(&f.expr).is_some() {
+                        // buffer: <object variable>.buffer — the sub-object's fields, one by one
+                        let (x, fo_sub) = self.obj_sub_of(&f.expr).unwrap();
+                        for (sf, n) in &fo_sub {
+                            if *n == 0 {
+                                out.push(format!("SSet (PVar {}) (EVar {})", q(&format!("self.buffer.{}", sf)), q(&format!("{}.buffer.{}", x, sf))));
+                            } else {
+                                out.push(format!("SCopyArr {} {}", q(&format!("self.buffer.{}", sf)), q(&format!("{}.buffer.{}", x, sf))));
+                            }
                         }
                     } else if name == "buffer" && toks(&f.expr) == "HashPacket :: default ()" {
                         // #[derive(Default)] on HashPacket { buf: [u8; 32], buf_index: usize }: zeroed array, index 0
@@ -1667,6 +1779,37 @@ impl<'a> Cx<'a> {
                 if let Some(p) = self.vec_place(&r.expr) {
                     self.vec_alias.insert(name.to_string(), p);
                     return true;
+                }
+            }
+        }
+        // let x = <ForeignType>::f(args): a constructor of another translated type
+        if let (Some(fo), syn::Expr::Call(c)) = (self.multi.and_then(|m| m.foreign.as_ref()), init) {
+            if let syn::Expr::Path(pth) = &*c.func {
+                let segs: Vec<String> = pth.path.segments.iter().map(|s| s.ident.to_string()).collect();
+                if segs.len() == 2 && segs[0] == fo.ty {
+                    let qn = format!("{}::{}", fo.ty, segs[1]);
+                    let args: Vec<&syn::Expr> = c.args.iter().collect();
+                    if let Some((txt, _)) = self.call(&qn, &args) {
+                        let mut shape = Vec::new();
+                        for (f, n) in &fo.arrays {
+                            shape.push(format!("({}, {}%nat)", q(&format!("self.{}", f)), n));
+                            self.vars.insert(format!("{}.{}", name, f), Ty::Arr(Ity::U64));
+                            self.lens.insert(format!("{}.{}", name, f), *n);
+                        }
+                        for (f, n) in &fo.sub.1 {
+                            shape.push(format!("({}, {}%nat)", q(&format!("self.{}.{}", fo.sub.0, f)), n));
+                            if *n == 0 {
+                                self.vars.insert(format!("{}.{}.{}", name, fo.sub.0, f), Ty::Int(Ity::Usz));
+                            } else {
+                                self.vars.insert(format!("{}.{}.{}", name, fo.sub.0, f), Ty::Arr(Ity::U8));
+                                self.lens.insert(format!("{}.{}.{}", name, fo.sub.0, f), *n);
+                            }
+                        }
+                        // txt is:  "name" [args]
+                        let st = format!("SCallNew {} {} [{}]", q(name), txt, shape.join("; "));
+                        self.flush(out, st);
+                        return true;
+                    }
                 }
             }
         }
@@ -2382,7 +2525,7 @@ struct MFn<'a> {
 
 /// Translate a SIMD backend file (hasher struct + vector wrapper type + free helper functions) into RustLite.
 /// Functions are keyed by qualified names: "<Hash>::f", "<Wrap>::f", "<Wrap>::<Trait>::f", "f".
-pub fn translate_multi(file: &syn::File, rel: &str, hash_ty: &str, wrap_ty: &str, raw_tys: &[&str], wanted_hash: &[&str], skip_wrap: &[&str], externals: &[&str], ext_file: Option<&syn::File>, consts_in: &[(&str, u128)], listname: &str, sub: Option<SubObj>) -> String {
+pub fn translate_multi(file: &syn::File, rel: &str, hash_ty: &str, wrap_ty: &str, raw_tys: &[&str], wanted_hash: &[&str], skip_wrap: &[&str], externals: &[&str], ext_file: Option<&syn::File>, foreign: Option<(Foreign, &[(&str, &[(&str, usize)], Option<usize>)])>, consts_in: &[(&str, u128)], listname: &str, sub: Option<SubObj>) -> String {
     let consts: HashMap<String, u128> = consts_in.iter().map(|(k, v)| (k.to_string(), *v)).collect();
     let set_vec_tys = |with_self: bool| {
         VEC_TYS.with(|v| {
@@ -2434,7 +2577,9 @@ pub fn translate_multi(file: &syn::File, rel: &str, hash_ty: &str, wrap_ty: &str
                         let qname = match (&tr, owner) {
                             (None, Owner::Hash) => format!("{}::{}", hash_ty, name),
                             (None, _) => format!("{}::{}", wrap_ty, name),
-                            (Some(_), Owner::Hash) => continue, // the trait impls of the hasher forward to the inherent functions (FactsC05)
+                            // the trait impls of the hasher forward to the inherent functions (FactsC05) — except checkpoint, written in the impl
+                            (Some(t), Owner::Hash) if t == "HighwayHash" && name == "checkpoint" => format!("{}::{}", hash_ty, name),
+                            (Some(_), Owner::Hash) => continue,
                             (Some(t), _) => {
                                 if skip_wrap.contains(&t.as_str()) {
                                     continue;
@@ -2541,7 +2686,20 @@ pub fn translate_multi(file: &syn::File, rel: &str, hash_ty: &str, wrap_ty: &str
             }
         }
     }
-    let multi = Multi { hash_ty: hash_ty.to_string(), wrap_ty: wrap_ty.to_string(), vfields, wrap_traits, wrap_mut };
+    // methods of the foreign type the file calls: name, array parameters (name, length), length of the array result
+    let mut foreign_desc = None;
+    if let Some((fo, methods)) = foreign {
+        for (mname, params, ret) in methods {
+            let ps: Vec<(String, Ty)> = params.iter().map(|(n, _)| (n.to_string(), Ty::Arr(Ity::U8))).collect();
+            let r = match ret {
+                Some(_) => Ty::Arr(Ity::U8),
+                None => Ty::Unit,
+            };
+            sigs.insert(format!("{}::{}", fo.ty, mname), Sig { params: ps, ret: r });
+        }
+        foreign_desc = Some(fo);
+    }
+    let multi = Multi { hash_ty: hash_ty.to_string(), wrap_ty: wrap_ty.to_string(), vfields, wrap_traits, wrap_mut, foreign: foreign_desc };
     let fields: HashMap<String, (Ity, usize)> = HashMap::new();
     let sfields: HashMap<String, Ity> = HashMap::new();
     let mut out = String::new();
